@@ -235,7 +235,7 @@ def setup():
 # ---------------------------------------------------------------- cases
 # Composites attached by point matching (firstPt/secondPt): scale_upem raises AttributeError on them
 # (pending finding C17-N8, notes/pending_findings.md).  Switch on once the finding is fixed or registered.
-ANCHORED_COMPOSITES = False
+ANCHORED_COMPOSITES = True
 PERMS = ["random", "reverse-tail", "transpose", "rotate"]
 MODES = ["bin-default", "bin-lazy", "bin-eager", "ttx"]
 TARGETS = ["half", "double", "1000<->2048", "plus1", "16384", "ratio"]
